@@ -272,17 +272,22 @@ func (ld *Layerdefs) findLayerstate(layer *Layerinfo) {
 			missingMountpoints = append(missingMountpoints, pair.UnexpandedMount)
 			continue
 		}
+		mnt := ld.mounts.GetMount(pair.Mount)
 		if path.IsAbs(pair.Source) && !fs.Exists(pair.Source) &&
 			! ld.inAnyLayerDirectory(pair.Source) {
 			missingMountSources = append(missingMountSources, pair.Source)
+			if mnt != nil {
+				incorrectMounts = append(incorrectMounts, pair)
+			}
 			continue
 		}
-		mnt := ld.mounts.GetMount(pair.Mount)
 		if mnt == nil {
 			continue
 		}
 		numMounted++
-		if !ld.mounts.MountSourceIsExpected(mnt, pair.Source) {
+		isBind := pair.Fstype == "bind" || pair.Fstype == "rbind"
+		if !ld.mounts.MountSourceIsExpected(mnt, pair.Source) ||
+			(!isBind && mnt.Fstype != pair.Fstype) {
 			incorrectMounts = append(incorrectMounts, pair)
 		}
 	}
